@@ -254,7 +254,8 @@ class Term:
             return self
         elif isinstance(other, type(self)):
             return Model(self, other)
-        elif isinstance(other, Model):
+        elif isinstance(other, (Model, Intercept, NegatedIntercept)):
+            # "x + 1" and "x + 0", the latter remembers that the intercept has been removed
             return Model(self) + other
         else:  # pragma: no cover
             return NotImplemented
@@ -281,6 +282,9 @@ class Term:
                 return Model()
             else:
                 return self
+        elif isinstance(other, Intercept):
+            # "x - 1": the model remembers that the intercept has been removed, see Model.__or__
+            return Model(self) - other
         else:  # pragma: no cover
             return NotImplemented
 
@@ -849,6 +853,9 @@ class Model:
             self.response = response
         else:
             raise ValueError("Response must be of class Response.")
+        # True after "- 1", "+ 0" or "+ -1": what '|' needs to know when the removal is not the
+        # first item of the expression, as in "(x + z - 1 | g)"
+        self.intercept_removed = False
         if all(isinstance(term, ACCEPTED_TERMS) for term in terms):
             # A model is a set of terms: keep the first occurrence of each one
             terms = [term for i, term in enumerate(terms) if term not in terms[:i]]
@@ -877,6 +884,8 @@ class Model:
         if isinstance(other, NegatedIntercept):
             return self - Intercept()
         elif isinstance(other, (Term, GroupSpecificTerm, Intercept)):
+            if isinstance(other, Intercept):
+                self.intercept_removed = False
             return self.add_term(other)
         elif isinstance(other, type(self)):
             for term in other.terms:
@@ -907,6 +916,8 @@ class Model:
         elif isinstance(other, (Term, Intercept)):
             if other in self.common_terms:
                 self.common_terms.remove(other)
+            if isinstance(other, Intercept):
+                self.intercept_removed = True
             return self
         elif isinstance(other, GroupSpecificTerm):
             if other in self.group_terms:
@@ -1032,6 +1043,10 @@ class Model:
         model: :class:`.Model`
             A new instance of the model with all the terms computed.
         """
+
+        # "(x + z - 1 | g)" and "(x + z + 0 | g)" mean the same as "(0 + x + z | g)"
+        if self.intercept_removed and NegatedIntercept() not in self.common_terms:
+            self.common_terms.insert(0, NegatedIntercept())
 
         # If only one term in the expr, resolve according to the type of the term.
         if len(self.common_terms) == 1:
